@@ -32,6 +32,10 @@ from .common_node import clock_sources, clock_agreement
 
 def run(ctx: Ctx):
     model = ctx.model
+    from .common_node import names_resolve
+    names_resolve(ctx, "C11-RN")
+    from .recvmsg import received_messages_reach_dispatch
+    received_messages_reach_dispatch(ctx, "C11-R9d", answers=True, requests=False)
     T = TimerTable(ctx)
     g, at, conn = T.g, T.at, T.conn
     READY = frozenset(T.state_const("PEER_READY_STATES"))
